@@ -176,6 +176,7 @@ def is_flush_call(call: ast.Call) -> bool:
 
 
 def run(ctx):
+    ctx.rule("R05.x", "context-manager model: _batch_call_watchers, batch_call_watchers, discard_events, _syncing and edit_constant interpreted abstractly with the body of the `with` supplied at the `yield` (62 cases: entry state x body ends normally / raises x nesting x queues replaced in the body x Parameter copies made in the body): flag, queues, syncing set and constant flags are, after the block, what they were before; the flush runs iff outermost, after the restore, also when the body raised", floor=1)
     ctx.rule("R05.a", "every may-raise node that can follow a TEMP-write of a transient dispatcher field "
                       "(without an intervening ORIG-write) lies in a try whose finally / re-raising catch-all "
                       "handler restores the field", floor=8)
@@ -185,7 +186,6 @@ def run(ctx):
                       "first TEMP-write of the batching flag (changes already applied are announced no later than the raise)", floor=3)
     ctx.rule("R05.d", "every flush call of a flushing scope is dominated by the restore of the batching flag", floor=3)
     ctx.rule("R05.e", "when a field is set temporarily for every element of a collection and restored in a loop over the same collection, every iteration of the restoring loop reaches the restore", floor=1)
-    ctx.rule("R05.f", "in a context manager that saved a field and writes the saved value back, the write-back is passed on every exit after the yield (normal or exceptional)", floor=4)
     ctx.rule("R05.i", "in every @contextmanager, each write to object state (attribute/subscript store) made after the yield on the normal way out is also made on the way out of a failing body", floor=5)
     ctx.rule("R05.g", "a self-resetting Event is reset even when a watcher raises during the assignment: in Event.__set__ the reset is passed on the exceptional exit of super().__set__", floor=1)
     ctx.rule("R05.h", "a failing flush leaves no events behind: every exceptional exit of the flush passes a reset of both queues", floor=1)
@@ -290,6 +290,8 @@ def run(ctx):
     update_model.report(ctx, "C05", "R05.m")
     from checks import trigger_model
     trigger_model.report(ctx, "C05", "R05.t")
+    from checks import cm_model
+    cm_model.report(ctx, "C05", "R05.x")
 
 
 def _scope_floor(ctx, temp_scopes):
@@ -493,29 +495,6 @@ def _extra_rules(ctx, scopes):
                          input="with %s(obj): <something that makes the restore necessary>; raise ...  -> the state written by `%s` is not restored" % (f.name, missing[0][:50]))
             else:
                 ctx.ok("R05.i", f, y, "%d state write(s) after the yield, each also present on the exceptional way out" % len(nrm))
-    # ---- R05.f
-    for s in scopes:
-        f, cfg = s.f, s.cfg
-        if not f.has_decorator("contextmanager") or not s.saves or not s.orig:
-            continue
-        ys = [n for n in cfg.live_nodes() if n.suspend]
-        orig_ids = {w.id for w in s.orig}
-        for y in ys:
-            seen, stack, bad = set(), [t for l, t in y.succ], None
-            while stack and bad is None:
-                n = stack.pop()
-                if n.id in seen:
-                    continue
-                seen.add(n.id)
-                if n.id in orig_ids:
-                    continue
-                if n is cfg.exit or n is cfg.excexit:
-                    bad = n
-                    break
-                stack.extend(t for l, t in n.succ)
-            if bad is None:
-                ctx.ok("R05.f", f, y, "%s: the saved value is written back on every exit after the yield" % s.fld)
-            else:
-                ctx.fail("R05.f", f, y, "%s saved %s before the body and writes it back, but not on the %s exit after the yield: what the body queued/changed survives a failing body" % (
-                    f.name, s.fld, "exceptional" if bad is cfg.excexit else "normal"), key="%s::%s::restore-not-on-every-exit" % (f.qualname, s.fld),
-                    input="with discard_events(p): p.a = 1; raise ...  -> the event for a is delivered at the next unrelated assignment")
+    # R05.f (the saved value is written back on every exit after the yield, as a shape of the function) was
+    # replaced by the context-manager model R05.x, which runs the generator with the body supplied at the yield:
+    # the shape rule rejected an equivalent in-place restore (`queue[:] = saved`).
